@@ -19,25 +19,25 @@ Local Arguments den_wop : simpl never.
 Definition first_ok1 (first : bool) (o : wop) : bool :=
   if first then match o with WCond _ => false | WIdent _ w => negb (prefetch_word w) | _ => true end else true.
 
-Lemma op_wop : forall o first rest,
-  wop_okb false o = true -> first_ok1 first o = true ->
-  (if is_mem o then ends rest else safe rest) ->
-  p_operand first (toks_wop o ++ rest)%list = OpGot (den_wop o) rest.
+Lemma op_wop : forall fx o first rest,
+  wop_okb fx o = true -> first_ok1 first o = true ->
+  (if is_mem o then ends rest else safe fx rest) ->
+  p_operand fx first (toks_wop o ++ rest)%list = OpGot (den_wop o) rest.
 Proof.
-  intros o first rest Hok Hf Hr. destruct o as [r|els i|a b i|h n|h f|h w|w|b t c]; cbn [is_mem] in Hr.
+  intros fx o first rest Hok Hf Hr. destruct o as [r|els i|a b i|h n|h f|h w|w|b t c]; cbn [is_mem] in Hr.
   - apply op_wregop; assumption.
   - unfold wop_okb in Hok. apply andb_true_iff in Hok. destruct Hok as [H1 Hok]. apply andb_true_iff in Hok.
     destruct Hok as [H2 H3]. apply op_list; assumption.
   - unfold wop_okb in Hok. apply andb_true_iff in Hok. destruct Hok as [H1 Hok]. apply andb_true_iff in Hok.
     destruct Hok as [H2 H3]. apply op_range; assumption.
-  - apply (op_int h n first rest Hok Hr).
+  - apply (op_int fx h n first rest Hok Hr).
   - apply op_flt; assumption.
   - assert (E : (toks_wop (WIdent h w) ++ rest)%list = (hash_toks h ++ TW w :: rest)%list) by (destruct h; reflexivity).
     rewrite E.
     assert (Hp : first = true -> prefetch_word w = false).
     { intros ->. simpl in Hf. apply negb_true_iff in Hf. exact Hf. }
-    exact (op_ident h w first rest Hok Hp Hr).
-  - destruct first; [discriminate|]. apply (op_cond w rest Hok Hr).
+    exact (op_ident fx h w first rest Hok Hp Hr).
+  - destruct first; [discriminate|]. apply (op_cond fx w rest Hok Hr).
   - unfold wop_okb in Hok. apply andb_true_iff in Hok. destruct Hok as [H1 Hok]. apply andb_true_iff in Hok.
     destruct Hok as [H2 H3]. apply op_mem; try assumption; destruct t; exact H2.
 Qed.
@@ -51,18 +51,18 @@ Proof.
 Qed.
 
 (* the next operand does not start with a word spelled like a shift operator *)
-Lemma safe_next : forall o rest, wop_okb false o = true -> shiftlike o = false ->
-  safe (TP "," :: toks_wop o ++ rest)%list.
+Lemma safe_next : forall fx o rest, wop_okb fx o = true -> shiftlike fx o = false ->
+  safe fx (TP "," :: toks_wop o ++ rest)%list.
 Proof.
-  intros o rest Hok Hs. destruct o as [r|els i|a b i|h n|h f|h w|w|b t c]; unfold toks_wop.
+  intros fx o rest Hok Hs. destruct o as [r|els i|a b i|h n|h f|h w|w|b t c]; unfold toks_wop.
   - destruct r as [r|r i|r m|w|w]; cbn [wop_okb wregop_okb] in Hok; simpl.
     + apply safe_w. apply reg_no_shift. exact Hok.
     + apply andb_true_iff in Hok. destruct Hok as [Hok _]. apply safe_w. apply reg_no_shift. exact Hok.
     + apply andb_true_iff in Hok. destruct Hok as [Hok _]. apply safe_w. apply reg_no_shift. exact Hok.
     + pose proof (sp_facts w Hok) as F. unfold sp_fact in F. apply andb_true_iff in F. destruct F as [_ F].
-      apply andb_true_iff in F. destruct F as [F _]. apply negb_true_iff in F. apply safe_w. exact F.
+      apply andb_true_iff in F. destruct F as [F _]. apply negb_true_iff in F. apply safe_w. apply hsp_mono. exact F.
     + pose proof (zr_facts w Hok) as F. unfold zr_fact in F. apply andb_true_iff in F. destruct F as [_ F].
-      apply negb_true_iff in F. apply safe_w. exact F.
+      apply negb_true_iff in F. apply safe_w. apply hsp_mono. exact F.
   - simpl. apply safe_p.
   - simpl. apply safe_p.
   - destruct h; unfold num_toks, hash_toks; simpl; [apply safe_p|].
@@ -84,28 +84,28 @@ Proof.
   - eexists. apply ops_toks_cons2.
 Qed.
 
-Lemma p_operand_end : forall first ct, ends ct -> p_operand first ct = OpAbsent /\ skip_comma ct = ct.
-Proof. intros first ct [->|[raw ->]]; split; reflexivity. Qed.
+Lemma p_operand_end : forall fx first ct, ends ct -> p_operand fx first ct = OpAbsent /\ skip_comma ct = ct.
+Proof. intros fx first ct [->|[raw ->]]; split; reflexivity. Qed.
 
-Lemma p_slots_S : forall n first ts acc,
-  p_slots (S n) first ts acc =
-  match p_operand first ts with
+Lemma p_slots_S : forall fx n first ts acc,
+  p_slots fx (S n) first ts acc =
+  match p_operand fx first ts with
   | OpUnm => None
-  | OpAbsent => match n with O => Some (acc, ts) | _ => p_slots n false (skip_comma ts) acc end
-  | OpGot ops rest => match n with O => Some ((acc ++ ops)%list, rest) | _ => p_slots n false (skip_comma rest) ((acc ++ ops)%list) end
+  | OpAbsent => match n with O => Some (acc, ts) | _ => p_slots fx n false (skip_comma ts) acc end
+  | OpGot ops rest => match n with O => Some ((acc ++ ops)%list, rest) | _ => p_slots fx n false (skip_comma rest) ((acc ++ ops)%list) end
   end.
 Proof. reflexivity. Qed.
 
-Lemma slots_ok : forall n ops first acc ct,
-  length ops <= n -> ends ct -> forallb (wop_okb false) ops = true -> order_okb ops = true ->
-  noswallow_okb ops = true -> (first = true -> first_okb ops = true) ->
-  p_slots n first (ops_toks ops ++ ct)%list acc = Some ((acc ++ flat_map den_wop ops)%list, ct).
+Lemma slots_ok : forall fx n ops first acc ct,
+  length ops <= n -> ends ct -> forallb (wop_okb fx) ops = true -> order_okb ops = true ->
+  noswallow_okb fx ops = true -> (first = true -> first_okb ops = true) ->
+  p_slots fx n first (ops_toks ops ++ ct)%list acc = Some ((acc ++ flat_map den_wop ops)%list, ct).
 Proof.
-  induction n as [|n IH]; intros ops first acc ct Hlen Hct Hok Hord Hns Hfirst.
+  intros fx. induction n as [|n IH]; intros ops first acc ct Hlen Hct Hok Hord Hns Hfirst.
   - destruct ops; [|simpl in Hlen; lia]. simpl. rewrite app_nil_r. reflexivity.
   - destruct ops as [|o ops'].
     + simpl ops_toks. simpl app. simpl flat_map. rewrite app_nil_r.
-      destruct (p_operand_end first ct Hct) as [E1 E2].
+      destruct (p_operand_end fx first ct Hct) as [E1 E2].
       rewrite p_slots_S. rewrite E1. destruct n as [|n']; [reflexivity|]. rewrite E2.
       specialize (IH [] false acc ct ltac:(simpl; lia) Hct eq_refl eq_refl eq_refl ltac:(discriminate)).
       simpl ops_toks in IH. simpl app in IH. simpl flat_map in IH. rewrite app_nil_r in IH. exact IH.
@@ -116,10 +116,10 @@ Proof.
       destruct ops' as [|o2 r].
       * (* last operand *)
         simpl ops_toks. simpl flat_map. rewrite app_nil_r.
-        assert (Hr : if is_mem o then ends ct else safe ct) by (destruct (is_mem o); [exact Hct|apply ends_safe; exact Hct]).
-        rewrite p_slots_S. rewrite (op_wop o first ct Ho Hf1 Hr).
+        assert (Hr : if is_mem o then ends ct else safe fx ct) by (destruct (is_mem o); [exact Hct|apply ends_safe; exact Hct]).
+        rewrite p_slots_S. rewrite (op_wop fx o first ct Ho Hf1 Hr).
         destruct n as [|n']; [reflexivity|].
-        destruct (p_operand_end false ct Hct) as [_ E2]. rewrite E2.
+        destruct (p_operand_end fx false ct Hct) as [_ E2]. rewrite E2.
         specialize (IH [] false (acc ++ den_wop o)%list ct ltac:(simpl; lia) Hct eq_refl eq_refl eq_refl ltac:(discriminate)).
         simpl ops_toks in IH. simpl app in IH. simpl flat_map in IH. rewrite app_nil_r in IH. exact IH.
       * (* an operand followed by another one *)
@@ -128,14 +128,14 @@ Proof.
         cbn [order_okb] in Hord. apply andb_true_iff in Hord. destruct Hord as [Hnm Hord'].
         apply negb_true_iff in Hnm.
         cbn [noswallow_okb] in Hns. apply andb_true_iff in Hns. destruct Hns as [Hsw Hns'].
-        assert (Hsl : shiftlike o2 = false).
+        assert (Hsl : shiftlike fx o2 = false).
         { apply negb_true_iff in Hsw. unfold swallows_shift in Hsw. rewrite Hnm in Hsw. simpl in Hsw. exact Hsw. }
-        assert (Ho2 : wop_okb false o2 = true) by (simpl in Hok'; apply andb_true_iff in Hok'; tauto).
+        assert (Ho2 : wop_okb fx o2 = true) by (simpl in Hok'; apply andb_true_iff in Hok'; tauto).
         assert (Hr : if is_mem o then ends (TP "," :: ops_toks (o2 :: r) ++ ct)%list
-                     else safe (TP "," :: ops_toks (o2 :: r) ++ ct)%list).
+                     else safe fx (TP "," :: ops_toks (o2 :: r) ++ ct)%list).
         { rewrite Hnm. destruct (ops_toks_head o2 r) as [X EX]. rewrite EX, <- app_assoc.
           apply safe_next; assumption. }
-        rewrite p_slots_S. rewrite (op_wop o first _ Ho Hf1 Hr).
+        rewrite p_slots_S. rewrite (op_wop fx o first _ Ho Hf1 Hr).
         destruct n as [|n']; [simpl in Hlen; lia|].
         change (skip_comma (TP "," :: ops_toks (o2 :: r) ++ ct)%list) with (ops_toks (o2 :: r) ++ ct)%list.
         specialize (IH (o2 :: r) false (acc ++ den_wop o)%list ct ltac:(simpl in *; lia) Hct Hok' Hord' Hns' ltac:(discriminate)).
@@ -174,22 +174,22 @@ Proof.
   - destruct (ops_toks_head o r) as [X E]. rewrite E, <- app_assoc. apply toks_wop_start.
 Qed.
 
-Lemma parse_toks_instr : forall mn l, opstart l -> head_is (ceq ".") mn = false -> mnemonic_ok mn = true ->
-  parse_toks (TW mn :: l) = parse_instr mn l.
-Proof. intros mn l H H1 H2. inversion H; subst; unfold parse_toks; rewrite H1, H2; reflexivity. Qed.
+Lemma parse_toks_instr : forall fx mn l, opstart l -> head_is (ceq ".") mn = false -> mnemonic_ok mn = true ->
+  parse_toks fx (TW mn :: l) = parse_instr fx mn l.
+Proof. intros fx mn l H H1 H2. inversion H; subst; unfold parse_toks; rewrite H1, H2; reflexivity. Qed.
 
-Theorem tokens_instr_line : forall mn ops c, wline_okb false (WLInstr mn ops c) = true ->
-  parse_toks (toks_line (WLInstr mn ops c)) = Parsed (denote (WLInstr mn ops c)).
+Theorem tokens_instr_line : forall fx mn ops c, wline_okb fx (WLInstr mn ops c) = true ->
+  parse_toks fx (toks_line (WLInstr mn ops c)) = Parsed (denote (WLInstr mn ops c)).
 Proof.
-  intros mn ops c H. unfold wline_okb in H.
+  intros fx mn ops c H. unfold wline_okb in H.
   apply andb_true_iff in H. destruct H as [Hmn H]. apply andb_true_iff in H. destruct H as [Hdot H].
   apply andb_true_iff in H. destruct H as [Hlen H]. apply andb_true_iff in H. destruct H as [Hok H].
   apply andb_true_iff in H. destruct H as [Hord H]. apply andb_true_iff in H. destruct H as [Hfirst H].
-  apply andb_true_iff in H. destruct H as [Hc Hns]. simpl in Hns.
+  apply andb_true_iff in H. destruct H as [Hc Hns].
   apply negb_true_iff in Hdot. apply Nat.leb_le in Hlen.
-  unfold toks_line. rewrite (parse_toks_instr mn _ (ops_toks_start ops c) Hdot Hmn).
+  unfold toks_line. rewrite (parse_toks_instr fx mn _ (ops_toks_start ops c) Hdot Hmn).
   unfold parse_instr.
-  rewrite (slots_ok 5 ops true [] (comment_toks c) Hlen (comment_toks_ends c) Hok Hord Hns (fun _ => Hfirst)).
+  rewrite (slots_ok fx 5 ops true [] (comment_toks c) Hlen (comment_toks_ends c) Hok Hord Hns (fun _ => Hfirst)).
   simpl app. destruct c as [raw|]; reflexivity.
 Qed.
 
@@ -233,30 +233,31 @@ Proof.
   intros ps c. destruct ps as [|p [|q r]]; unfold param_toks; simpl; try constructor. destruct c; constructor.
 Qed.
 
-Theorem tokens_directive_line : forall n ps c, wline_okb false (WLDirective n ps c) = true ->
-  parse_toks (toks_line (WLDirective n ps c)) = Parsed (denote (WLDirective n ps c)).
+Theorem tokens_directive_line : forall fx n ps c, wline_okb fx (WLDirective n ps c) = true ->
+  parse_toks fx (toks_line (WLDirective n ps c)) = Parsed (denote (WLDirective n ps c)).
 Proof.
-  intros n ps c H. unfold wline_okb in H.
+  intros fx n ps c H. unfold wline_okb in H.
   apply andb_true_iff in H. destruct H as [Hn H]. apply andb_true_iff in H. destruct H as [Hps H].
-  apply andb_true_iff in H. destruct H as [Hc Hcl]. simpl in Hcl. apply negb_true_iff in Hcl.
+  apply andb_true_iff in H. destruct H as [Hc Hcl].
   assert (Hps' : forallb dir_param_ok ps = true).
   { rewrite forallb_forall in *. intros p Hp. specialize (Hps p Hp). apply andb_true_iff in Hps. tauto. }
   clear Hps. rename Hps' into Hps.
   unfold toks_line. fold (param_toks ps).
   assert (P : dir_params (param_toks ps ++ comment_toks c)%list = true) by (apply dir_params_ok; [exact Hps|apply comment_toks_ends]).
-  assert (C : dir_comment_clash (param_toks ps ++ comment_toks c)%list = false).
-  { destruct c as [raw|]; simpl comment_toks; [rewrite dir_clash_some; exact Hcl|apply dir_clash_none]. }
+  assert (C : orb (fx_dir fx) (negb (dir_comment_clash (param_toks ps ++ comment_toks c)%list)) = true).
+  { destruct (fx_dir fx); [reflexivity|]. simpl in Hcl |- *.
+    destruct c as [raw|]; simpl comment_toks; [rewrite dir_clash_some; exact Hcl|rewrite dir_clash_none; reflexivity]. }
   change ("." ++ n) with (String "." n) in *.
   pose proof (param_toks_start ps c) as S. inversion S; subst.
-  - rewrite <- H0 in *. unfold parse_toks. simpl head_is. change (ceq "." ".") with true. cbv iota. rewrite Hn. reflexivity.
+  - rewrite <- H0 in *. unfold parse_toks. simpl head_is. change (ceq "." ".") with true. cbv iota. rewrite Hn, P, C. reflexivity.
   - rewrite <- H0 in *. unfold parse_toks. simpl head_is. change (ceq "." ".") with true. cbv iota. rewrite Hn, P, C. reflexivity.
   - rewrite <- H0 in *. unfold parse_toks. simpl head_is. change (ceq "." ".") with true. cbv iota. rewrite Hn, P, C. reflexivity.
 Qed.
 
 (* ---------------------------------------------------------------- every line of the sub-language, token level *)
-Theorem tokens_line : forall l, wline_okb false l = true -> parse_toks (toks_line l) = Parsed (denote l).
+Theorem tokens_line : forall fx l, wline_okb fx l = true -> parse_toks fx (toks_line l) = Parsed (denote l).
 Proof.
-  intros [mn ops c|n c|n ps c|raw] H.
+  intros fx [mn ops c|n c|n ps c|raw] H.
   - apply tokens_instr_line; exact H.
   - apply tokens_label_line. unfold wline_okb in H. apply andb_true_iff in H. tauto.
   - apply tokens_directive_line; exact H.
@@ -264,12 +265,16 @@ Proof.
 Qed.
 
 (* ---------------------------------------------------------------- the round trip on strings *)
-Theorem parse_render_partial : forall l lay trail,
-  wline_okb false l = true -> layout_okb lay trail l = true -> cond_tight lay trail l = true ->
-  parse_line (render lay trail l) = Parsed (denote l).
+(* for every configuration fx: with the repair fx_cond the marks of the lexer are dropped (any layout), without
+   it the layout has to be tight after condition codes *)
+Theorem parse_render_fx : forall fx l lay trail,
+  wline_okb fx l = true -> layout_okb lay trail l = true -> cond_tight fx lay trail l = true ->
+  parse_line fx (render lay trail l) = Parsed (denote l).
 Proof.
-  intros l lay trail Hl Hlay Ht. unfold layout_okb in Hlay. apply andb_true_iff in Hlay. destruct Hlay as [Htr Hlay].
+  intros fx l lay trail Hl Hlay Ht. unfold layout_okb in Hlay. apply andb_true_iff in Hlay. destruct Hlay as [Htr Hlay].
   unfold parse_line, render.
   pose proof (lex_render_tokens lay trail (toks_line l) Htr Hlay) as L. unfold line_trail in L. rewrite L.
-  unfold cond_tight in Ht. rewrite (mark_tight _ _ _ Ht). apply tokens_line. exact Hl.
+  unfold cond_tight in Ht. unfold unmark. destruct (fx_cond fx).
+  - rewrite (unmark_mark _ _ _ _ Hlay). apply tokens_line. exact Hl.
+  - simpl in Ht. rewrite (mark_tight _ _ _ Ht). apply tokens_line. exact Hl.
 Qed.
